@@ -668,6 +668,11 @@ func (sa *Application) AddAllocationAsk(ask *Allocation) error {
 	if sa.IsFailing() {
 		return fmt.Errorf("application %s is failing, ask %s not accepted", sa.ApplicationID, ask.GetAllocationKey())
 	}
+	// a terminated application is unlinked from its queue and moved out of the scheduling set by the partition, from a
+	// different goroutine: an ask that arrives while that happens cannot be scheduled (and there might be no queue)
+	if sa.stateMachine.Is(Completed.String()) || sa.stateMachine.Is(Failed.String()) || sa.stateMachine.Is(Expired.String()) {
+		return fmt.Errorf("application %s is in state %s, ask %s not accepted", sa.ApplicationID, sa.stateMachine.Current(), ask.GetAllocationKey())
+	}
 	if ask.createTime.Before(sa.submissionTime) {
 		sa.submissionTime = ask.createTime
 	}
